@@ -41,4 +41,40 @@ PROPS = {
             "'never loops' is restated as bounded progress: a parse that exceeds 20 s (>=200x the slowest passing case) is a hang suspect; a child that exceeds 120 s is inconclusive",
         ],
     },
+    "C03": {
+        "bin": "m_gram",
+        "build": BUILD_VH,
+        "level": "exploration",
+        "budget": {"quick": 15, "thorough": 300},
+        "timeout": {"quick": 900, "thorough": 7200},
+        "death_is_violation": False,
+        "rule": ("base files = generated single-module programs (2-8 well-formed items: functions, custom types, aliases, constants, imports; attributes, doc comments, pub/opaque; plain or wild trivia) "
+                 "that parse error-free; victim = a function or custom type with a braced body; damage strictly inside the body: k=1 edits enumerated exhaustively over a fixed pool of 40 [thorough 120] base files x every victim "
+                 "x every body token position x (insert each of 55 non-opening tokens | delete | replace by each of them), k=2..3 [thorough ..5] edits sampled. Braces are never inserted, deleted or replaced; "
+                 "no opening delimiter, string or comment opener is ever inserted. Distinct by FNV-1a of the damaged text (every damaged file is non-trivial by construction)."),
+        "exhaustive_scope": "k=1 damage over the fixed base pool; k>1 is sampled",
+        "assumptions": [
+            "oracle: every untouched item is found in the damaged file's item list with the same kind, name and text, in order, at its shifted offset; every reported error range and every extra/stray node lies in [victim start, start of the next untouched item); an error stamped on the next definition's first token counts as inside that definition",
+            "item boundaries of the undamaged file are those glas itself reports for the error-free base file (cross-checked against the generator's sidecar by C04)",
+            "a damaged text on which the parser panics is C02's violation and counted inconclusive here",
+        ],
+    },
+    "C04": {
+        "bin": "m_gram",
+        "build": BUILD_VH,
+        "level": "exploration",
+        "budget": {"quick": 15, "thorough": 300},
+        "timeout": {"quick": 900, "thorough": 7200},
+        "death_is_violation": False,
+        "rule": ("cases = (a) exhaustively all ordered pairs and triples of the 23 infix operators (22 binary + pipe) in every association shape, with prefix/postfix atoms, printed with braces only where Gleam's precedence "
+                 "table and left associativity require; (b) seeded random programs from the reference grammar (imports with unqualified/type/aliased members, custom types with generics and labelled fields, aliases, constants, "
+                 "functions with labelled/annotated/discarded parameters, attributes, let/let assert/use/expression statements, all expression and pattern forms, type expressions) printed with random legal trivia. "
+                 "Non-trivial = contains a function body; distinct by FNV-1a of the text."),
+        "exhaustive_scope": "operator pairs and triples; programs are sampled",
+        "assumptions": [
+            "oracle: zero syntax errors and CST read back through the public typed accessors == the generator's intended structure (S-expression equality), plus accessor cross-checks (op_kind table; Param.ty / StmtLet.body must return the child in that slot)",
+            "supported surface = the generator's grammar: no record update, no `echo`, no `let assert ... as`, bit arrays only as an opaque blob, no `x as y` on a bare variable pattern, no chained tuple index `a.0.1`",
+            "multi-subject clauses with alternatives (`a, b | c, d`) are generated only when GenCfg.multi_alt is on (see known findings)",
+        ],
+    },
 }
